@@ -26,6 +26,9 @@ def alphabet(rng, k=0, uniq=[500]):
         nodegen.ccr(h, e, p), nodegen.ccr(h, e, "stranger.x"), nodegen.cca(h, e, p), nodegen.unk(h, e, p),
         # application ids announced in the other role only: nothing in common
         nodegen.cer(p, "", h, e, ",acct=4"), nodegen.cer(p, "3", h, e), nodegen.cer(p, "3", h, e, ",acct=4"),
+        # application ids inside Vendor-Specific-Application-Id: shared, in the other role only, next to a plain one
+        nodegen.cer(p, "", h, e, ",vauth=4"), nodegen.cer(p, "", h, e, ",vacct=4"), nodegen.cer(p, "", h, e, ",vacct=3"),
+        nodegen.cer(p, "99", h, e, ",vauth=4+5"), nodegen.cer(p, "", h, e, ",vauth=99,vacct=98"),
     ]
 
 
@@ -68,6 +71,9 @@ def oracle(line: str, obs: Obs):
                     a = {int(x) for x in m["keys"].get("auth", "").split("+") if x}
                     ac = {int(x) for x in m["keys"].get("acct", "").split("+") if x}
                     relay = 4294967295 in a or 4294967295 in ac
+                    # application ids announced inside Vendor-Specific-Application-Id count like the plain ones (RFC 6733 5.3.x)
+                    a |= {int(x) for x in m["keys"].get("vauth", "").split("+") if x}
+                    ac |= {int(x) for x in m["keys"].get("vacct", "").split("+") if x}
                     if oh not in peers:
                         want = 3010
                     elif (a & auth_ids) or (ac & acct_ids) or relay:
